@@ -2,6 +2,13 @@
 import glob, json, os, subprocess, sys
 rnd = sys.argv[1]
 FOCUS = {
+    "10": ("This time PREFER a bug of one of these kinds: (i) a value that is CACHED or computed LAZILY on a handle (statistics, dtypes, categories, "
+          "schema helper, row-group file lists, key-value dicts) and becomes stale or is shared when it should not be; (ii) the footer's BOOKKEEPING "
+          "numbers (num_rows per row group vs total, total_byte_size, data_page_offset / dictionary_page_offset / file_offset, column order, "
+          "num_values vs null_count) going wrong for one layout only (multi-file vs single file, second row group, a column after a nullable or "
+          "dictionary-encoded one); (iii) INDEX handling (named / unnamed / multi-level / non-default RangeIndex start+step / index that is also "
+          "listed in columns=, index=False reads, write_index=None heuristics); (iv) row groups of ZERO rows or columns that are entirely null "
+          "in one row group but not the next. You have about 12 minutes: pick quickly, keep it small. "),
     "9": ("This time PREFER a bug of one of these kinds: (i) a LOOP over several columns / row groups / pages / files in which only the FIRST or the "
           "LAST element (or every element after the first) is handled differently: an off-by-one on the last page, state left over from the previous "
           "column or row group, something computed once outside the loop that should be per element; (ii) a condition on the KIND of a dtype or type "
